@@ -1586,6 +1586,10 @@ class FnEmitter:
                     msg = g[1].data.rstrip(b'\x00').decode('latin1').replace('\\', '/').replace('"', "'")
             L.append('  __CPROVER_assert(%s, "%s");' % (A[0], msg))
             return True
+        if n in ('sqrt', 'ceil', 'floor') and res:
+            self.define(res, rt, '__ll2c_%s(%s)' % (n, A[0]))
+            if op == 'invoke': L.append('  ' + self.goto(bname, normal))
+            return True
         if n == 'verif_param':
             self.define(res, rt, self.mask(rt, '__verif_params[%s]' % A[0]))
             if op == 'invoke': L.append('  ' + self.goto(bname, normal))
@@ -1759,8 +1763,8 @@ class FnEmitter:
             self.define(res, rt, '(%s * %s + %s)' % (A[0], A[1], A[2])); return
         for fn in ('ceil', 'floor', 'sqrt', 'fabs', 'trunc', 'round', 'pow', 'exp', 'log', 'log10', 'sin', 'cos', 'exp2', 'log2', 'rint', 'nearbyint', 'copysign', 'maxnum', 'minnum'):
             if base.startswith(fn + '.'):
-                cf = {'maxnum': 'fmax', 'minnum': 'fmin'}.get(fn, fn)
-                if base.endswith('f32'): cf += 'f'
+                cf = {'maxnum': 'fmax', 'minnum': 'fmin', 'ceil': '__ll2c_ceil', 'sqrt': '__ll2c_sqrt', 'floor': '__ll2c_floor'}.get(fn, fn)
+                if base.endswith('f32') and not cf.startswith('__ll2c_'): cf += 'f'
                 self.define(res, rt, '%s(%s)' % (cf, ', '.join(A))); return
         if base.startswith('eh.typeid.for'):
             self.define(res, rt, '__ll2c_typeid_for((void*)%s)' % A[0]); return
@@ -1824,6 +1828,7 @@ int memcmp(const void*, const void*, unsigned long); int bcmp(const void*, const
 static u64 __ll2c_cttz64(u64); static u32 __ll2c_cttz32(u32); static u16 __ll2c_cttz16(u16); static u8 __ll2c_cttz8(u8); static u64 __ll2c_ctlz64(u64); static u32 __ll2c_ctlz32(u32);
 static void __ll2c_umul_ov64(u64, u64, u64*, _Bool*); static void __ll2c_uadd_ov64(u64, u64, u64*, _Bool*);
 void __cxa_pure_virtual(void); void __ll2c_global_ctors(void);
+static double __ll2c_ceil(double); static double __ll2c_floor(double); static double __ll2c_sqrt(double);
 extern int __ll2c_exc_active; extern void *__ll2c_exc_ptr; extern void *__ll2c_exc_type; extern int __ll2c_exc_sel;
 '''
 
